@@ -20,7 +20,7 @@ pub fn meta() -> Meta {
     Meta {
         id: "C19",
         level: "fault_enumeration",
-        rule: "valid .skf files — small 64-bit (3 samples), small 128-bit, one-sample 64- and 128-bit files (their snappy chunk is stored uncompressed), a file of 300 samples x 250 highly compressible rows (several snappy frames), thorough: a 6 kb genome file with incompressible k-mers, and the files an in-place delete/weed writes — each subjected to EVERY truncation length 0..len-1 and EVERY single-bit flip of every byte; each damaged image goes through MergeSkaArray::<u64>::load then ::<u128>::load as in main: both must fail, or the accepted content (k, strand mode, names, k-mers, bases through the public API) must equal the original. CLI confirmation on the small file: every subcommand on every truncation (quick: stride 3) and on a stride of flips must exit non-zero exactly when the loader rejects, and a rejected delete/weed must leave the file byte-identical. Non-trivial = a damaged image (all are); distinct outcomes = rejected / accepted-identical.".into(),
+        rule: "valid .skf files — small 64-bit (3 samples), small 128-bit, one-sample 64- and 128-bit files (their snappy chunk is stored uncompressed), a file of 180 samples x 200 highly compressible rows (more than 64 kB of CBOR, hence several snappy frames), thorough: a 6 kb genome file with incompressible k-mers, and the files an in-place delete and an in-place weed write — each subjected to EVERY truncation length 0..len-1 and EVERY single-bit flip of every byte; each damaged image goes through MergeSkaArray::<u64>::load then ::<u128>::load as in main: both must fail, or the accepted content (k, strand mode, names, k-mers, bases through the public API) must equal the original. CLI confirmation on the small file: every subcommand on every truncation (quick: stride 3) and on a stride of flips must exit non-zero exactly when the loader rejects, and a rejected delete/weed must leave the file byte-identical. Non-trivial = a damaged image (all are); distinct outcomes = rejected / accepted-identical.".into(),
         assumptions: vec!["exactly one fault per image (one truncation or one flipped bit)".into(), "flips that change only the stored per-k-mer counts, k_bits or version string are reported separately (not part of the statement's 'samples, k-mers or bases')".into()],
         exhaustive_when_uncapped: true,
     }
@@ -90,14 +90,20 @@ pub fn prepare(tier: crate::explore::Tier, seed: u64, dir: &str) {
                 if ops::op_delete(&out, &["s1".to_string()], &d).is_ok() {
                     add("written by delete", &d);
                 }
+                // and the file an in-place weed writes
+                let wf = scratch::write("c19_weed.fa", &scratch::fasta(&[pool[0][0][..k + 3].to_vec()]));
+                let w = scratch::path("c19_weeded.skf");
+                if ops::op_weed(&out, &ops::WeedArgs::plain(&wf, false), &w).is_ok() {
+                    add("written by weed", &w);
+                }
             }
         }
     }
-    // several snappy frames, small on disk: 300 samples x 250 rows of compressible bases
+    // several snappy frames, small on disk: 180 samples x 200 rows of compressible bases
     {
-        let n = 300;
+        let n = 180;
         let mut rows = BTreeMap::new();
-        for i in 0..250u64 {
+        for i in 0..200u64 {
             let key = String::from_utf8(crate::enumerate::nth_string(b"ACGT", 8, i * 257 + 3)).unwrap();
             let row: Vec<u8> = (0..n).map(|j| if (i + j as u64) % 97 == 0 { b'C' } else { b'A' }).collect();
             rows.insert(key, row);
